@@ -367,3 +367,136 @@ def c07_rearm(tier, seed):
                           "detail": f"{name}: expected the error to be raised from send() and the rolled-back timer to fire: expected {expect_after}, got {after} (status {st}, raised {err}; right after the abort {before})"})
     return {"evaluations": evals, "nontrivial": evals, "ties": [], "fails": fails, "samples": [{"machine": cases[0][1]}], "exhaustive": True,
             "what": "abort (missing action) in exit / transition / entry lists x timer owned by the rolled-back state / by a sibling region, both engines: configuration restored, error reported, timer still fires"}
+
+
+# --------------------------------------------------------------------------------------------- C05 (pure API)
+def _machine_fingerprint(machine):
+    """deep structural fingerprint of a parsed machine definition (to check the pure API leaves it alone)"""
+    out = []
+
+    def tr(t):
+        return (t.event, t.target_str, repr(getattr(t, "guard", None)), tuple(a.type for a in t.actions), bool(t.reenter))
+
+    def walk(n):
+        out.append((n.id, n.type, n.initial, tuple(sorted((k, tuple(tr(t) for t in v)) for k, v in n.on.items())),
+                    tuple(a.type for a in n.entry), tuple(a.type for a in n.exit)))
+        for c in n.states.values():
+            walk(c)
+    walk(machine)
+    return tuple(out)
+
+
+def _pure_run(case):
+    import copy
+    from xstate_statemachine import create_machine
+    from xstate_statemachine.helpers import initial_transition, transition
+    from . import impl
+    log = []
+    machine = create_machine(copy.deepcopy(case["machine"]), logic=impl.mklogic(log, case["guards"]))
+    fp0 = _machine_fingerprint(machine)
+    out = []
+    snap, acts = initial_transition(machine)
+    out.append({"C": sorted(snap.configuration), "S": snap.status, "K": {k: v for k, v in snap.context.items() if isinstance(v, int)},
+                "A": [a.type for a in acts], "ran": list(log)})
+    for ev in case["events"]:
+        before = (sorted(snap.configuration), dict(snap.context), snap.status)
+        log.clear()
+        nxt, acts = transition(machine, snap, ev)
+        after_in = (sorted(snap.configuration), dict(snap.context), snap.status)
+        out.append({"C": sorted(nxt.configuration), "S": nxt.status, "K": {k: v for k, v in nxt.context.items() if isinstance(v, int)},
+                    "A": [a.type for a in acts], "ran": list(log), "input_mutated": before != after_in})
+        snap = nxt
+    return out, fp0 != _machine_fingerprint(machine)
+
+
+def _pure_worker(case):
+    import signal
+    from . import impl
+    old = signal.signal(signal.SIGALRM, impl._alarm)
+    signal.setitimer(signal.ITIMER_REAL, 8, 0.2)
+    try:
+        return ("ok", _pure_run(case))
+    except impl.Hang:
+        return ("hang", None)
+    except Exception as e:
+        return ("crash", f"{type(e).__name__}: {e}"[:200])
+    finally:
+        signal.setitimer(signal.ITIMER_REAL, 0)
+        signal.signal(signal.SIGALRM, old)
+
+
+def _has_builtin_followups(machine):
+    s = json.dumps(machine)
+    return any(x in s for x in ('"raise"', '"xstate.raise"', '"raise_"', '"choose"', '"xstate.choose"'))
+
+
+def pure_compare(c, o1, pr):
+    """problems (at most one) of the pure API run `pr` against the SyncInterpreter observations `o1`"""
+    from .actions_names import BUILTINS
+    pure, machine_mutated = pr
+    uses_history = "target:history" in c.get("features", []) or '"history"' in json.dumps(c["machine"])
+    followups = _has_builtin_followups(c["machine"])
+    if machine_mutated:
+        return [{"kind": "pure-api-mutates-definition", "detail": "the machine definition changed during pure evaluation"}]
+    done_seen = False
+    for step, (a, b) in enumerate(zip(o1, pure)):
+        if a.get("E") or a.get("cuts"):
+            break
+        if b.get("ran"):
+            return [{"kind": "pure-api-runs-user-code", "step": step, "detail": f"user actions ran inside the pure API: {b['ran'][:3]}"}]
+        if b.get("input_mutated"):
+            return [{"kind": "pure-api-mutates-snapshot", "step": step, "detail": "the snapshot passed to transition() was modified"}]
+        st = {"active": "running"}.get(b["S"], b["S"])
+        exp_actions = [r.rsplit("@", 1)[0] for r in a["T"] if not r.startswith("#")]
+        got_actions = [x for x in b["A"] if x not in BUILTINS]
+        diffs = []
+        if sorted(a["C"]) != b["C"]:
+            diffs.append("configuration")
+        if a["S"] != st:
+            diffs.append("status")
+        if a.get("K") != b.get("K"):
+            diffs.append("context")
+        if exp_actions != got_actions:
+            diffs.append("actions")
+        if diffs:
+            return [{"kind": "pure-api-disagrees", "step": step, "after_done": done_seen, "uses_history": uses_history,
+                     "has_builtin_followups": followups,
+                     "detail": f"pure API vs SyncInterpreter differ in {diffs}: sync C={a['C']} S={a['S']} pure C={b['C']} S={b['S']}; sync actions {exp_actions[:4]} pure {got_actions[:4]}"}]
+        if a["S"] == "done":
+            done_seen = True
+    return []
+
+
+def c05_pure(tier, seed, n=120):
+    """pure functions vs SyncInterpreter on the same machine / events (monitor on the real code)"""
+    scale = 6 if tier == "thorough" else 1
+    fails, samples = [], []
+    evals = nontrivial = 0
+    cases = []
+    for prof in ("core", "select", "done", "history", "actions"):
+        for i in range(n * scale // 2):
+            c = gen.gen_case(seed, prof, 12000 + i)
+            if prof == "actions":
+                # context may change only through `assign` for the comparison to be meaningful
+                if any(f in c["features"] for f in ("ctx-action", "failing-action")):
+                    continue
+            cases.append(c)
+    rs = core.run_impl_many("sync", cases)
+    rp = core.pool().map(_pure_worker, cases, chunksize=4)
+    for c, (s1, o1), (s2, pr) in zip(cases, rs, rp):
+        evals += 1
+        if s1 != "ok":
+            continue
+        if s2 != "ok":
+            fails.append({"kind": "pure-api-crash", "case": c, "detail": f"pure API: {s2} {pr}"})
+            continue
+        probs = pure_compare(c, o1, pr)
+        if probs:
+            fails.append(dict(probs[0], case=c))
+        else:
+            if any(len(o["T"]) for o in o1[1:]):
+                nontrivial += 1
+            if len(samples) < 2 and len(json.dumps(c)) < 1800:
+                samples.append({"case": c})
+    return {"evaluations": evals, "nontrivial": nontrivial, "ties": [], "fails": fails, "samples": samples, "exhaustive": False,
+            "what": "initial_transition/transition chained over the event list vs SyncInterpreter: configuration, status, context, reported vs executed actions per step; no user code runs; definition and input snapshot unchanged"}
